@@ -268,6 +268,22 @@ func c08Stages(c *wk.Case, srcN int64, failAt int64, k int64, expensive bool) *r
 	if srcN == 1000 && r.IntN(4) == 0 {
 		// lazy list built from another stage
 		cur = ref.Method(ref.Static("numbers", ref.Int(srcN)), "skip", ref.Int(0))
+	} else if srcN == 1000 && r.IntN(4) == 0 {
+		// a source that is already in memory (literal, evaluated, sorted, appended): nothing may look at
+		// its items while the pipeline is only being built
+		var items []*ref.Node
+		for i := int64(0); i < 70; i++ {
+			items = append(items, ref.Int(i))
+		}
+		cur = ref.ListN(items...)
+		switch r.IntN(4) {
+		case 0:
+			cur = ref.Method(cur, "eval")
+		case 1:
+			cur = ref.Method(cur, "order", ref.Clo([]string{"o"}, ref.Id("o")))
+		case 2:
+			cur = ref.Method(ref.ListN(items[:69]...), "append", ref.Int(69))
+		}
 	}
 	nst := 1 + r.IntN(4)
 	id := ref.Id
@@ -317,7 +333,10 @@ func c08Stages(c *wk.Case, srcN int64, failAt int64, k int64, expensive bool) *r
 
 func c08Consumer(c *wk.Case, cur *ref.Node, k int64, K *ref.Node, id func(string) *ref.Node) *ref.Node {
 	r := c.Rng
-	switch r.IntN(9) {
+	switch r.IntN(11) {
+	case 9, 10:
+		// single on a list with more than one item: the second item decides (an error), nothing behind it is needed
+		cur = ref.Try(ref.Method(ref.Method(cur, "skip", ref.Int(k/2)), "single"), ref.Int(-1))
 	case 8:
 		// membership with a list on the left: all of its items must be found, the larger one decides
 		lo := k / 2
